@@ -160,7 +160,7 @@ theorem branch_rel {c : Ctx} {mfuel fuel : Nat} (HF : FFStmt c mfuel fuel) {cnd 
           obtain ⟨qu, hqu, htu, hku⟩ := origU g hg
           have ha := hgood qa hqa
           have hu := hgood qu hqu
-          have := (hcoh.1 qa.1.1 qu.1.1 (pu_sb1.2 ha.2.1) (pu_sb1.2 hu.2.1) (by rw [hka, hku, hname])).1
+          have := (cohAt_full hcoh qa.1.1 qu.1.1 (pu_sb1.2 ha.2.1) (pu_sb1.2 hu.2.1) (by rw [hka, hku, hname])).1
           rw [← ha.1.1, ← hu.1.1, hta, htu] at this; cases this
         · intro σ hag
           obtain ⟨h1, c1⟩ := relU σ hag
